@@ -266,6 +266,16 @@ pub fn strings(p: &N, seed: u64) -> Vec<String> {
         long.push(c);
         v.push(long);
     }
+    // every non-digit at EVERY position of a 60-digit string (parsers that work in chunks have internal boundaries)
+    let body: Vec<char> = dec(&(p - n(987654321))).chars().take(60).collect();
+    for c in bads {
+        for pos in 0..=body.len() {
+            let mut s: String = body[..pos].iter().collect();
+            s.push(c);
+            s.extend(body[pos..].iter());
+            v.push(s);
+        }
+    }
     let mut seen = std::collections::HashSet::new();
     v.retain(|s| seen.insert(s.clone()));
     v
